@@ -11,7 +11,20 @@ pub struct Srv { pub child: Child, pub port: u16, pub dir: std::path::PathBuf }
 pub struct SrvOpts { pub password: Option<String>, pub aof: bool, pub dir: Option<std::path::PathBuf>, pub keep_dir: bool }
 impl Default for SrvOpts { fn default() -> Self { SrvOpts { password: None, aof: false, dir: None, keep_dir: false } } }
 
+/// A port that is free right now, taken from BELOW the kernel's ephemeral range (32768..): a port
+/// released here is then never handed to another process's bind(0) or outgoing connection, so servers
+/// of concurrently running checks cannot end up sharing a port (a lost race among this harness's own
+/// shards is caught by the child's failing bind, see the ready file in Srv::start).
 fn free_port() -> u16 {
+    static N: std::sync::atomic::AtomicU64 = std::sync::atomic::AtomicU64::new(0);
+    let t = std::time::SystemTime::now().duration_since(std::time::UNIX_EPOCH).map(|d| d.as_nanos() as u64).unwrap_or(0);
+    let mut x = t ^ ((std::process::id() as u64) << 32) ^ N.fetch_add(1, std::sync::atomic::Ordering::SeqCst).wrapping_mul(0x9E3779B97F4A7C15);
+    for _ in 0..10000 {
+        x = x.wrapping_add(0x9E3779B97F4A7C15);
+        let mut z = x; z = (z ^ (z >> 30)).wrapping_mul(0xBF58476D1CE4E5B9); z = (z ^ (z >> 27)).wrapping_mul(0x94D049BB133111EB); z ^= z >> 31;
+        let port = 10000 + (z % 22000) as u16;
+        if std::net::TcpListener::bind(("127.0.0.1", port)).is_ok() { return port; }
+    }
     let l = std::net::TcpListener::bind("127.0.0.1:0").unwrap();
     l.local_addr().unwrap().port()
 }
@@ -34,11 +47,15 @@ impl Srv {
             if let Some(p) = &o.password { c.arg("--pass").arg(p); }
             if o.aof { c.arg("--aof"); }
             c.current_dir(&dir).stdin(Stdio::null()).stdout(Stdio::null()).stderr(Stdio::null());
+            // the child creates <dir>/.ready once ITS listener is bound: a successful connect alone could
+            // reach the server of a parallel harness process that was handed the same "free" port
+            let ready = dir.join(".ready");
+            let _ = std::fs::remove_file(&ready);
             let mut child = c.spawn().expect("spawn server");
             let t0 = Instant::now();
             loop {
                 if let Ok(Some(_)) = child.try_wait() { break; }
-                if std::net::TcpStream::connect(("127.0.0.1", port)).is_ok() {
+                if ready.exists() && std::net::TcpStream::connect(("127.0.0.1", port)).is_ok() {
                     // port race between harness processes: make sure it is OUR child that listens
                     // (the VERIF PID hook answers the server's process id)
                     let mut mine = false;
@@ -77,7 +94,10 @@ pub fn serve(args: &[String]) {
     if args.iter().any(|a| a == "--aof") { cfg.aof.enabled = true; cfg.aof.dir = dir.clone(); }
     let _ = std::panic::take_hook();
     match ferrous::Server::from_config(cfg) {
-        Ok(mut s) => { let r = s.run(); eprintln!("server ended: {:?}", r.is_ok()); }
+        Ok(mut s) => {
+            let _ = std::fs::write(std::path::Path::new(&dir).join(".ready"), b"1");
+            let r = s.run(); eprintln!("server ended: {:?}", r.is_ok());
+        }
         Err(e) => { eprintln!("server failed to start: {}", e); std::process::exit(3); }
     }
 }
@@ -119,7 +139,7 @@ pub fn canon_reply(name: &[u8], v: V) -> V {
         b"SSCAN" => match v {
             V::Array(mut l) if l.len() == 2 => { if let V::Array(m) = &mut l[1] { if m.iter().all(|x| matches!(x, V::Bulk(_))) { sort_bulks(m); } } V::Array(l) }
             x => x },
-        _ => v,
+        _ => crate::c15::canon_streams(name, v),
     }
 }
 /// canonical order of pushed frames (= Model/RunSrv.v canon_pushes): each maximal run of consecutive
@@ -160,7 +180,7 @@ fn canon_unsub_all(kind: &[u8], l: &mut Vec<V>) {
 pub fn req_name(req: &V) -> Vec<u8> {
     match req { V::Array(l) => match l.first() { Some(V::Bulk(b)) => b.to_ascii_uppercase(), _ => vec![] }, _ => vec![] }
 }
-const RANDOM_CMDS: &[&[u8]] = &[b"RANDOMKEY", b"SPOP", b"SRANDMEMBER"];
+const RANDOM_CMDS: &[&[u8]] = &[b"RANDOMKEY", b"SPOP", b"SRANDMEMBER", b"XADD"];
 
 pub struct Runner { pub srv: Srv, pub conns: HashMap<i128, Client>, pub t0: Instant, pub logical: i128, pub drift_bad: bool, pub queues: HashMap<i128, Vec<Vec<u8>>>, pub password: Option<String>, pub ctl_authed: bool, pub quit_sent: std::collections::HashSet<i128> }
 
